@@ -1,6 +1,106 @@
 package main
 
-// replayObligation tries to turn a failed obligation into a concrete failing input on the real code.
-func replayObligation(E *Engine, prop string, o *Obligation) *replayResult {
+import (
+	"encoding/json"
+	"fmt"
+	"os"
+	"os/exec"
+	"path/filepath"
+	"regexp"
+	"strings"
+	"time"
+)
+
+// Replay: a failed obligation is turned into a concrete failing input on the REAL code where
+// possible. The harness (/verif/replay/*.go.txt, injected into the package with `go test -overlay`)
+// executes the real built-in functions in an in-memory world on concrete scenarios and evaluates an
+// executable oracle of the property. A scenario that violates the oracle is a failing input; without
+// one the violation is reported with no-failing-input-found.
+
+var typeToNames = map[string][]string{
+	"esdtTransfer": {"ESDTTransfer"}, "esdtNFTTransfer": {"ESDTNFTTransfer"}, "esdtNFTMultiTransfer": {"MultiESDTNFTTransfer"},
+	"esdtLocalMint": {"ESDTLocalMint"}, "esdtLocalBurn": {"ESDTLocalBurn"}, "esdtBurn": {"ESDTBurn"},
+	"esdtNFTCreate": {"ESDTNFTCreate"}, "esdtNFTAddQuantity": {"ESDTNFTAddQuantity"}, "esdtNFTBurn": {"ESDTNFTBurn"},
+	"esdtNFTAddUri": {"ESDTNFTAddURI"}, "esdtNFTupdate": {"ESDTNFTUpdateAttributes"},
+	"esdtFreezeWipe": {"ESDTFreeze", "ESDTUnFreeze", "ESDTWipe"}, "esdtPause": {"ESDTPause", "ESDTUnPause", "ESDTTransfer", "ESDTLocalMint"},
+	"esdtRoles": {"ESDTSetRole", "ESDTUnSetRole", "ESDTLocalMint", "ESDTNFTCreate"}, "esdtNFTCreateRoleTransfer": {"ESDTNFTCreateRoleTransfer"},
+	"changeOwnerAddress": {"ChangeOwnerAddress"}, "claimDeveloperRewards": {"ClaimDeveloperRewards"},
+	"saveUserName": {"SetUserName"}, "saveKeyValueStorage": {"SaveKeyValue"},
+}
+
+var reRecv = regexp.MustCompile(`^builtInFunctions\.\(\*?(\w+)\)\.`)
+
+func replayFuncsFor(o *Obligation) []string {
+	fn := o.Fn
+	if i := strings.Index(o.Name, "#"); i > 0 {
+		// the obligation may stem from an inlined helper; the function under verification decides
+		fn = o.Fn
+	}
+	if m := reRecv.FindStringSubmatch(fn); m != nil {
+		if ns, ok := typeToNames[m[1]]; ok {
+			return ns
+		}
+	}
+	if strings.HasPrefix(fn, "builtInFunctions.") || strings.HasPrefix(fn, "vmcommon.") {
+		return []string{"*"} // a shared helper: search through every built-in function
+	}
 	return nil
+}
+
+func replayObligation(E *Engine, prop string, o *Obligation) *replayResult {
+	funcs := replayFuncsFor(o)
+	if funcs == nil {
+		return nil
+	}
+	switch prop {
+	case "C01", "C02", "C03", "C04", "C05", "C06", "C07", "C09", "C11", "C13", "C16", "C17":
+	default:
+		return &replayResult{Text: "no executable oracle for property " + prop + " in the replay harness"}
+	}
+	dir := scratchDir
+	if dir == "" {
+		dir = filepath.Join(verifDir, "out", prop)
+	}
+	os.MkdirAll(dir, 0o755)
+	ov := map[string]map[string]string{"Replace": {
+		filepath.Join(E.P.Repo, "builtInFunctions", "zz_replay_world_test.go"): filepath.Join(verifDir, "replay", "world_test.go.txt"),
+		filepath.Join(E.P.Repo, "builtInFunctions", "zz_replay_scen_test.go"):  filepath.Join(verifDir, "replay", "scen_test.go.txt"),
+	}}
+	ovb, _ := json.Marshal(ov)
+	ovf := filepath.Join(dir, "replay_overlay.json")
+	os.WriteFile(ovf, ovb, 0o644)
+	n := 6000
+	if E.Opt.Tier == "thorough" {
+		n = 60000
+	}
+	if len(funcs) == 1 && funcs[0] == "*" {
+		n /= 6
+	}
+	env := append(os.Environ(), "REPLAY_PROP="+prop, "REPLAY_FUNCS="+strings.Join(funcs, ","), fmt.Sprintf("REPLAY_N=%d", n), fmt.Sprintf("REPLAY_SEED=%d", E.Opt.Seed),
+		"GOFLAGS=-mod=mod", "GOPROXY=off", "GOSUMDB=off", "GOTOOLCHAIN=local")
+	if o.Finding != "" {
+		env = append(env, "REPLAY_ALIAS=1")
+	}
+	cmd := exec.Command("go", "test", "-v", "-overlay", ovf, "-vet=off", "-count=1", "-timeout", "240s", "-run", "TestReplaySearch", "./builtInFunctions/")
+	cmd.Dir = E.P.Repo
+	cmd.Env = env
+	t0 := time.Now()
+	out, _ := cmd.CombinedOutput()
+	res := &replayResult{}
+	var sb strings.Builder
+	sb.WriteString(fmt.Sprintf("harness: %d concrete scenarios per function of %v executed on the real code in %.1fs\n", n, funcs, time.Since(t0).Seconds()))
+	sb.WriteString("re-run: cd " + E.P.Repo + " && REPLAY_PROP=" + prop + " REPLAY_FUNCS=" + strings.Join(funcs, ",") + fmt.Sprintf(" REPLAY_N=%d REPLAY_SEED=%d", n, E.Opt.Seed) + " go test -v -overlay <overlay mapping zz_replay_*_test.go to /verif/replay/*.go.txt> -vet=off -run TestReplaySearch ./builtInFunctions/\n")
+	for _, ln := range strings.Split(string(out), "\n") {
+		if strings.HasPrefix(ln, "REPLAY-VIOLATION") {
+			res.Confirmed = true
+			sb.WriteString("FAILING INPUT (confirmed on the real code): " + strings.TrimPrefix(ln, "REPLAY-VIOLATION ") + "\n")
+		} else if strings.HasPrefix(ln, "REPLAY-DONE") {
+			sb.WriteString(ln + "\n")
+		}
+	}
+	if !strings.Contains(string(out), "REPLAY-DONE") {
+		sb.WriteString("harness did not complete:\n" + tail(string(out), 1500) + "\n")
+	}
+	res.Text = sb.String()
+	return res
 }
